@@ -1,6 +1,6 @@
 (** Non-vacuity for C12: readers satisfying the hypotheses, and concrete runs of the model. *)
 From Coq Require Import NArith List Lia.
-From FF Require Import Lib.Word Gen.Consts_device_acpi_aml Aml.Stream Aml.Lex Aml.LexProofs Aml.Tree Aml.TreeSpec Aml.Parser Aml.ParserProofs Aml.ParserProofsTop Aml.ParserTotalBase Aml.ParserTotalFirst Aml.ParserTotalConn Aml.ParserTotalTop Aml.ParserTotalNonNamed Aml.ParserTotalCalls Aml.ParserTotalReloc Aml.ParserTotalMerge Aml.ParserTotalResolve Aml.ParserTotalLex Aml.ParserTotalTree Aml.ParserTotalDefer Aml.ParserTotalDeferW Aml.ParserTotalDeferV Aml.ParserTotalTyped Aml.ParserTotalShape Aml.ParserTotalChain Aml.ParserTotalConn2 Aml.ParserTotalPass2 Aml.ParserTotalBenign Aml.ParserTotalFirst2 Aml.ParserTotalPass1 Aml.ParserTotalHandle Aml.ParserTotalLoad Aml.ParserTotalMeth.
+From FF Require Import Lib.Word Gen.Consts_device_acpi_aml Aml.Stream Aml.Lex Aml.LexProofs Aml.Tree Aml.TreeSpec Aml.Parser Aml.ParserProofs Aml.ParserProofsTop Aml.ParserTotalBase Aml.ParserTotalFirst Aml.ParserTotalConn Aml.ParserTotalTop Aml.ParserTotalNonNamed Aml.ParserTotalCalls Aml.ParserTotalReloc Aml.ParserTotalMerge Aml.ParserTotalResolve Aml.ParserTotalLex Aml.ParserTotalTree Aml.ParserTotalDefer Aml.ParserTotalDeferW Aml.ParserTotalDeferV Aml.ParserTotalTyped Aml.ParserTotalShape Aml.ParserTotalChain Aml.ParserTotalConn2 Aml.ParserTotalPass2 Aml.ParserTotalBenign Aml.ParserTotalFirst2 Aml.ParserTotalPass1 Aml.ParserTotalHandle Aml.ParserTotalLoad Aml.ParserTotalMeth Aml.ParserTotalFuel.
 Import ListNotations.
 Local Open Scope N_scope.
 
@@ -368,3 +368,13 @@ Example C12_keeps_methods_nonvacuous :
   match connectNonNamedObjArgs 10 0 mx_state with Ok (r, _) => r = ROk | _ => False end.
 Proof. exact mx_hyps. Qed.
 
+(** the fuel hypotheses of the C12_parse_total_partial_fuel_* theorems hold for the pool with a Method (4 slots, fuel 10 >= 8); the walks
+    return ok *)
+Example C12_fuel_nonvacuous :
+  (2 * length (t_pool (p_tree mx_state)) <= 10)%nat /\ glive mx_ghost 0 /\ groot mx_ghost 0 /\ R (p_tree mx_state) mx_ghost /\
+  match connectNamedObjArgs 10 0 mx_state with Ok (r, _) => r = ROk | _ => False end /\
+  match parse_tail2 10 10 mx_state with Ok (b, _) => b = true | _ => False end.
+Proof.
+  destruct mx_hyps as (A & _ & _ & _ & B & C & _).
+  split; [vm_compute; lia|]. split; [exact B|]. split; [exact C|]. split; [exact A|]. split; vm_compute; reflexivity.
+Qed.
